@@ -1,11 +1,11 @@
 SPECIFICATION Spec
 CONSTANTS
   Clients <- OneClient
-  MaxExch = 3
+  MaxExch = 2
   MaxDupReq = 0
   MaxDupResp = 1
   MaxInject = 1
-  MaxTC = 0
+  MaxTC = 1
   Thetas <- ThetasTwo
   CtxCap = 2
   ServerMode = "paired"
